@@ -4,165 +4,9 @@
      MISMATCH \t line-no \t op \t args \t real \t model
    for every difference, then one line  SUMMARY \t <json>.
    With  --print  it prints the model result for every line instead (used by the vm_compute cross-run).
-   Everything semantic is extracted code; this file only parses and prints. *)
-open Model
-
-(* ---------- s-expressions ---------- *)
-type sx = A of string | L of sx list
-
-exception Bad of string
-
-let parse_sx (s : string) : sx =
-  let n = String.length s in
-  let pos = ref 0 in
-  let rec skip () = if !pos < n && (s.[!pos] = ' ') then (incr pos; skip ()) in
-  let rec one () =
-    skip ();
-    if !pos >= n then raise (Bad "eof")
-    else if s.[!pos] = '(' then begin
-      incr pos;
-      let items = ref [] in
-      let rec loop () =
-        skip ();
-        if !pos >= n then raise (Bad "unclosed")
-        else if s.[!pos] = ')' then incr pos
-        else (items := one () :: !items; loop ()) in
-      loop (); L (List.rev !items)
-    end else if s.[!pos] = ')' then raise (Bad "unexpected )")
-    else begin
-      let st = !pos in
-      while !pos < n && s.[!pos] <> ' ' && s.[!pos] <> '(' && s.[!pos] <> ')' do incr pos done;
-      A (String.sub s st (!pos - st))
-    end in
-  let r = one () in
-  skip ();
-  if !pos <> n then raise (Bad "trailing") else r
-
-(* ---------- numbers ---------- *)
-let rec nat_of_int n = if n <= 0 then O else S (nat_of_int (n - 1))
-let rec int_of_nat = function O -> 0 | S k -> 1 + int_of_nat k
-
-(* decimal string <-> positive, without relying on OCaml int width *)
-let dec_to_bits (s : string) : bool list (* lsb first *) =
-  let digits = Array.init (String.length s) (fun i ->
-    let c = Char.code s.[i] - 48 in if c < 0 || c > 9 then raise (Bad ("digit " ^ s)) else c) in
-  let len = Array.length digits in
-  let is_zero () = Array.for_all (fun d -> d = 0) digits in
-  let bits = ref [] in
-  while not (is_zero ()) do
-    let carry = ref 0 in
-    for i = 0 to len - 1 do
-      let cur = !carry * 10 + digits.(i) in
-      digits.(i) <- cur / 2; carry := cur mod 2
-    done;
-    bits := (!carry = 1) :: !bits
-  done;
-  List.rev !bits
-
-let rec pos_of_bits = function
-  | [] -> raise (Bad "zero positive")
-  | [true] -> XH
-  | b :: r -> if b then XI (pos_of_bits r) else XO (pos_of_bits r)
-
-(* drop high zero bits (msb is last) *)
-let norm_bits bits = let rec go = function [] -> [] | b :: r -> (match go r with [] -> if b then [true] else [] | r' -> b :: r') in go bits
-
-let n_of_dec (s : string) : n =
-  match norm_bits (dec_to_bits s) with [] -> N0 | bits -> Npos (pos_of_bits bits)
-let z_of_dec (s : string) : z =
-  if String.length s > 0 && s.[0] = '-' then
-    (match n_of_dec (String.sub s 1 (String.length s - 1)) with N0 -> Z0 | Npos p -> Zneg p)
-  else (match n_of_dec s with N0 -> Z0 | Npos p -> Zpos p)
-let n_of_int (i : int) : n = n_of_dec (string_of_int i)
-
-let rec bits_of_pos = function XH -> [true] | XO p -> false :: bits_of_pos p | XI p -> true :: bits_of_pos p
-let dec_of_bits (bits : bool list) (* lsb first *) : string =
-  let digits = ref [0] (* lsb first decimal *) in
-  List.iter (fun b ->
-    let carry = ref (if b then 1 else 0) in
-    digits := List.map (fun d -> let v = d * 2 + !carry in carry := v / 10; v mod 10) !digits;
-    if !carry > 0 then digits := !digits @ [!carry]) (List.rev bits);
-  String.concat "" (List.rev_map string_of_int !digits)
-let dec_of_n = function N0 -> "0" | Npos p -> dec_of_bits (bits_of_pos p)
-let dec_of_z = function Z0 -> "0" | Zpos p -> dec_of_bits (bits_of_pos p) | Zneg p -> "-" ^ dec_of_bits (bits_of_pos p)
-let int_of_n x = int_of_string (dec_of_n x)
-
-(* ---------- diagrams ---------- *)
-let atom = function A s -> s | L _ -> raise (Bad "atom expected")
-let int_atom x = int_of_string (atom x)
-let nat_atom x = nat_of_int (int_atom x)
-let list_of = function L l -> l | A _ -> raise (Bad "list expected")
-
-(* a raw tree: no [mk]; used for real results handed to checkers *)
-let rec bdd_raw = function
-  | A "F" -> F | A "T" -> T
-  | L [A "N"; t; v; f] -> Nd (bdd_raw t, nat_atom v, bdd_raw f)
-  | _ -> raise (Bad "bdd")
-
-let rec show_bdd buf = function
-  | F -> Buffer.add_char buf 'F' | T -> Buffer.add_char buf 'T'
-  | Nd (t, v, f) ->
-      Buffer.add_string buf "(N "; show_bdd buf t; Buffer.add_char buf ' ';
-      Buffer.add_string buf (string_of_int (int_of_nat v)); Buffer.add_char buf ' ';
-      show_bdd buf f; Buffer.add_char buf ')'
-let bdd_str b = let buf = Buffer.create 64 in show_bdd buf b; Buffer.contents buf
-
-(* ---------- S-bdd: operation programs ---------- *)
-let tte_of = function A "t" -> TTrue | A "f" -> TFalse | A "a" -> TAny | _ -> raise (Bad "tte")
-
-let rec expr_of (x : sx) : expr =
-  match x with
-  | A "X" -> EX
-  | A "F" -> ELit F | A "T" -> ELit T
-  | L [A "N"; _; _; _] -> ELit (bdd_raw x)
-  | L [A "tt"; L vars; num] -> ELit (build_tt (List.map nat_atom vars) (n_of_dec (atom num)) N0)
-  | L [A "var"; v] -> EVar (nat_atom v)
-  | L [A "const"; b] -> EConst (atom b = "1")
-  | L [A "not"; a] -> ENot (expr_of a)
-  | L [A "and"; a; b] -> EAnd (expr_of a, expr_of b)
-  | L [A "or"; a; b] -> EOr (expr_of a, expr_of b)
-  | L [A "imp"; a; b] -> EImp (expr_of a, expr_of b)
-  | L [A "eq"; a; b] -> EEq (expr_of a, expr_of b)
-  | L [A "xor"; a; b] -> EXor (expr_of a, expr_of b)
-  | L [A "nor"; a; b] -> ENor (expr_of a, expr_of b)
-  | L [A "nand"; a; b] -> ENand (expr_of a, expr_of b)
-  | L [A "ite"; a; b; c] -> EIte (expr_of a, expr_of b, expr_of c)
-  | L [A "aln"; L bs; n] -> EAln (List.map expr_of bs, z_of_dec (atom n))
-  | L [A "amn"; L bs; n] -> EAmn (List.map expr_of bs, z_of_dec (atom n))
-  | L [A "exn"; L bs; n] -> EExn (List.map expr_of bs, z_of_dec (atom n))
-  | L [A "cleq"; L a; L b] -> ELeq (List.map expr_of a, List.map expr_of b)
-  | L [A "clt"; L a; L b] -> ELt (List.map expr_of a, List.map expr_of b)
-  | L [A "cgeq"; L a; L b] -> EGeq (List.map expr_of a, List.map expr_of b)
-  | L [A "cgt"; L a; L b] -> EGt (List.map expr_of a, List.map expr_of b)
-  | L [A "ceq"; L a; L b] -> ECeq (List.map expr_of a, List.map expr_of b)
-  | L [A "ex"; L vs; a] -> EEx (List.map nat_atom vs, expr_of a)
-  | L [A "ex1"; v; a] -> EEx1 (nat_atom v, expr_of a)
-  | L [A "all"; L vs; a] -> EAll (List.map nat_atom vs, expr_of a)
-  | L [A "fp"; i; b] -> EFp (expr_of i, expr_of b)
-  | L [A "model"; a] -> EModel (expr_of a)
-  | L [A "retain"; f; a] -> ERetain (tte_of f, expr_of a)
-  | L [A "clean"; a] -> EClean (expr_of a)
-  | L [A "mk"; t; v; f] -> EMk (expr_of t, nat_atom v, expr_of f)
-  | _ -> raise (Bad "expr")
-
-let run_fuel = nat_of_int 400
-
-let op_run (args : sx) : string =
-  match args with
-  | L [A "infer"; e; v] ->
-      (match run_infer run_fuel (expr_of e) (nat_atom v) with
-       | Some (a, b) -> Printf.sprintf "(ok (%d %d))" (if a then 1 else 0) (if b then 1 else 0)
-       | None -> "(diverge)")
-  | e ->
-      (match run run_fuel F (expr_of e) with
-       | Some b -> "(ok " ^ bdd_str b ^ ")"
-       | None -> "(diverge)")
-
-(* ---------- dispatch ---------- *)
-let table : (string, sx -> string) Hashtbl.t = Hashtbl.create 64
-let () = Hashtbl.replace table "run" op_run
-
-let () = Driver_ext.register table
+   Everything semantic is extracted code; these files only parse and print. *)
+open Base
+open Suites
 
 let trivial_result (r : string) =
   r = "(ok T)" || r = "(ok F)" || r = "(err)" || r = "(panic)" || r = "(diverge)"
@@ -205,7 +49,11 @@ let () =
               Hashtbl.replace per_op op (1 + (try Hashtbl.find per_op op with Not_found -> 0));
               if model <> real then begin
                 incr mism;
-                Printf.printf "MISMATCH\t%d\t%s\t%s\t%s\t%s\n" !lineno op args real model
+                let verdict =
+                  match Hashtbl.find_opt classifiers op with
+                  | None -> "unclassified"
+                  | Some f -> (try f (parse_sx args) real model with _ -> "classifier-error") in
+                Printf.printf "MISMATCH\t%d\t%s\t%s\t%s\t%s\t%s\n" !lineno op args real model verdict
               end;
               if not (trivial_result real) then begin
                 let d = Digest.string (op ^ "\t" ^ args) in
